@@ -639,6 +639,10 @@ pub fn install_standard_function(w: &mut World, device_type: u32, config_len: us
     let isr = Win { bar: slot as u8, off: 0x1000, len: 4 };
     let clen4 = ((config_len + 3) & !3) as u64;
     let devcfg = if w.tr.has_config { Some(Win { bar: slot as u8, off: 0x2000, len: clen4.max(4) }) } else { None };
+    if w.tr.has_config && (w.tr.config.len() as u64) < clen4.max(4) {
+        // the capability window is a whole number of 32-bit words; the device pads with zeros
+        w.tr.config.resize(clen4.max(4) as usize, 0);
+    }
     let mut caps = vec![
         (0x09u8, 1u8, 16u8, slot as u8, common.off as u32, common.len as u32, 0u32),
         (0x09, 2, 20, slot as u8, notify.off as u32, notify.len as u32, mult),
